@@ -745,8 +745,11 @@ def run(ctx):
                             "chain_vs_source": r["directions"], "violations": [k for k, _ in r["viol"]]})
     if c["harness_unsupported"]:
         raise RuntimeError(f"C25 tracer could not follow {c['harness_unsupported']} programs, e.g. {harness}")
+    from checks import c25b
+    pb = c25b.run_part(ctx)
     return {
-        "evaluations": n,
+        **pb,
+        "evaluations": n + pb["capture_programs"],
         "distinct_nontrivial": nontrivial,
         "rule": "compiled and inspected programs whose modifier stack has at least two modifiers",
         "samples": samples,
@@ -756,6 +759,13 @@ def run(ctx):
 
 
 def replay(ctx, item):
+    if item.get("part") == "capture":
+        from checks import c25b
+        return c25b.replay(ctx, item)
+    return _replay(ctx, item)
+
+
+def _replay(ctx, item):
     from guppylang_internals.experimental import enable_experimental_features
     enable_experimental_features()
     r = evaluate(item)
